@@ -66,6 +66,10 @@ def correspond(ctx):
     # liveness clause: theorem counter-witnesses replayed on the real engine + real runs with pause/resume on
     # small acyclic definitions (partial joins with successors, several activations) followed by the model
     par.run_parallel(ctx, 'harness.live_stream', 'run_chunk', [{'n_programs': ctx.n(12, 350)}] * 14)
+    # reverse workflows ("direct or reverse"): the real engine on generated reverse definitions vs Mistral.Reverse
+    # after every event + the outcome / requires monitors (model and theorems: Props/C04Rev)
+    par.run_parallel(ctx, 'harness.reverse_stream', 'run_chunk',
+                     [{'fn_programs': ctx.n(4, 80), 'rows_per_program': 6, 'engine_programs': ctx.n(8, 200)}] * 14)
 
 
 def search(ctx):
@@ -84,9 +88,15 @@ def search(ctx):
     par.run_parallel(ctx, 'harness.engine_stream', 'run_chunk',
                      [{'n_programs': 40, 'props': ['C01'], 'mode': 'plain'}] * 7 +
                      [{'n_programs': 30, 'props': ['C01'], 'mode': 'pause'}] * 7)
+    if ctx.violations:
+        return
+    par.run_parallel(ctx, 'harness.reverse_stream', 'run_engine_chunk', [{'n_programs': 30, 'p_err': 0.2}] * 14)
 
 
 def replay(ctx, rep):
+    if isinstance(rep.get('replay'), dict) and str(rep['replay'].get('stream', '')).startswith('reverse'):
+        from harness import reverse_stream
+        return reverse_stream.replay(ctx, rep)
     if isinstance(rep.get('replay'), dict) and rep['replay'].get('stream') == 'live':
         from harness import live_stream
         live_stream.replay(ctx, rep)
